@@ -548,8 +548,11 @@ def apply_edit(op, built, probes):
     else:
         bads = [k["bad"] for k in col["checks"] if k.get("bad") is not None]
         v = bads[op["pick"] % len(bads)] if bads else \
-            {"str": "zz", "dt": "1999-01-01", "dtz": "1999-01-01"}.get(col["dtype"], -5)
-        if col["dtype"] in ("dt", "dtz") and isinstance(v, str):
+            {"str": "zz", "dt": "1999-01-01", "dtz": "1999-01-01", "td": "9h",
+             "dtl": G.TZ_DST.get(col.get("tz"), {}).get(
+                 ["ambiguous", "nonexistent"][op["pick"] % 2], "1999-01-01")
+             }.get(col["dtype"], -5)
+        if col["dtype"] in ("dt", "dtz", "td", "dtl") and isinstance(v, str):
             v = G._values(col["dtype"], [v])[0]
     if c is None:
         obj.iloc[r] = v
